@@ -53,12 +53,28 @@ Record tapleaf := mk_tapleaf {
   tlf_script : bytes
 }.
 
+(* BIP-340 tagged hash with the work that depends only on the tag done once:
+   tagged_hash tag msg = SHA256(SHA256(tag) || SHA256(tag) || msg); the first 64-byte block
+   is the same for every message, so its chaining value is a constant of the tag.
+   Proofs/Taproot.v: tagged_from_mid (tag_prefix tag) (tag_mid tag) msg = tagged_hash tag msg. *)
+Definition tag_prefix (tag : bytes) : bytes := let t := sha256 tag in t ++ t.
+Definition tag_mid (tag : bytes) : list N := compress IV256 (tag_prefix tag).
+Definition tagged_from_mid (pre : bytes) (mid : list N) (msg : bytes) : bytes :=
+  let p := pad (pre ++ msg) in digest_of (blocks (length p / 64) mid (skipn 64 p)).
+
+Definition leaf_pre : bytes := tag_prefix tag_leaf.
+Definition leaf_mid : list N := tag_mid tag_leaf.
+Definition branch_pre : bytes := tag_prefix tag_branch.
+Definition branch_mid : list N := tag_mid tag_branch.
+Definition tweak_pre : bytes := tag_prefix tag_tweak.
+Definition tweak_mid : list N := tag_mid tag_tweak.
+
 (* TapElementsLeaf.TapHash: tagged(TapLeaf/elements, version || compactsize(len script) || script) *)
 Definition leaf_hash (l : tapleaf) : bytes :=
-  tagged_hash tag_leaf (tlf_version l :: var_slice (tlf_script l)).
+  tagged_from_mid leaf_pre leaf_mid (tlf_version l :: var_slice (tlf_script l)).
 
 (* chainhash.TaggedHash(TagTapBranchElements, l, r) *)
-Definition branch_hash_raw (l r : bytes) : bytes := tagged_hash tag_branch (l ++ r).
+Definition branch_hash_raw (l r : bytes) : bytes := tagged_from_mid branch_pre branch_mid (l ++ r).
 
 (* ---------- toutcome ---------- *)
 Inductive toutcome (A : Type) : Type :=
@@ -309,7 +325,7 @@ Definition scalar_of_bytes (b : bytes) : Z := (Z.of_N (be_dec b) mod tap_n)%Z.
 Definition scalar_to_bytes (z : Z) : bytes := be_enc 32 (Z.to_N z).
 
 (* tagged(TapTweak/elements, xonly key || root) as a scalar *)
-Definition tweak_hash (kx root : bytes) : bytes := tagged_hash tag_tweak (kx ++ root).
+Definition tweak_hash (kx root : bytes) : bytes := tagged_from_mid tweak_pre tweak_mid (kx ++ root).
 Definition tweak_scalar (kx root : bytes) : Z := scalar_of_bytes (tweak_hash kx root).
 
 (* TweakTaprootPrivKey.  privKeyScalar := &privKey.Key is a POINTER into the caller's
